@@ -275,6 +275,105 @@ example :
   | [] => simp [contentAt] at hc; subst hc; decide
   | x :: r => simp [contentAt, contentAtDirs] at hc
 
+/-! ## `xvc file track` re-establishes "tracked ⇒ ignored" whatever happened before
+
+  Multi-step histories: between two commands the user deletes a `.gitignore` (or a whole directory, and
+  regenerates its files), removes single lines, drops a whitelisting rule.  The ignore state and the
+  store are then out of step: a path is recorded, its line is gone.  The state is `Repo` = (recorded
+  paths, workspace); both components are universally quantified below. -/
+
+/-- **Track re-establishes ignore.**  For every store content `r.recorded`, every workspace `r.tree` (any
+    `.gitignore` contents, including none), every batch of directory and file targets and every set of
+    carried files: after `xvc file track` every file target `x` is ignored by git — whether `x` was
+    recorded before or not, whether its content changed or not, with or without `--no-commit`
+    (`carried = []`).  The three known-finding regions are excluded by explicit decidable hypotheses:
+    `hK6b` the name is a literal pattern; `hK6a` xvc's matcher does not find the target whitelisted;
+    `hK12` when xvc's matcher believes the target already ignored, git agrees.  The remaining
+    hypotheses are sanity conditions (the directory of the target exists, no line breaks in names and
+    in the date text, no `.gitignore` ends in a lone carriage return). -/
+theorem C16_track_reestablishes_ignore (r : Repo) (date : Str) (dirs files carried : List Target) (x : Target)
+    (hx : x ∈ files) (hdir : (contentAt x.dir r.tree).isSome = true)
+    (hd : '\n' ∉ date) (hdn : ∀ y ∈ dirs, '\n' ∉ y.name) (hsane : ∀ y ∈ files, '\n' ∉ y.name)
+    (hcn : ∀ y ∈ carried, '\n' ∉ y.name) (ht : NoLoneCR r.tree)
+    (hK6b : PlainName x.name)
+    (hK6a : check (gitRules (updateDirGitignores (gitRules r.tree) date dirs r.tree)) x.pathStr ≠ .whitelist)
+    (hK12 : check (gitRules (updateDirGitignores (gitRules r.tree) date dirs r.tree)) x.pathStr = .ignore →
+      gitIgnored (updateDirGitignores (gitRules r.tree) date dirs r.tree) (x.dir ++ [x.name]) false = true) :
+    gitIgnored (trackCmd date dirs files carried r).tree (x.dir ++ [x.name]) false = true := by
+  have hmid : gitIgnored (trackUpdate date dirs files r.tree) (x.dir ++ [x.name]) false = true := by
+    cases hc : check (gitRules (updateDirGitignores (gitRules r.tree) date dirs r.tree)) x.pathStr with
+    | noMatch => exact C16_ignored_after_track_partial date dirs files r.tree x hx hK6b hsane hdir hc
+    | ignore =>
+      obtain ⟨_, a2⟩ := dirs_more (gitRules r.tree) date dirs r.tree hd hdn ht
+      obtain ⟨b1, _⟩ := files_more (gitRules (updateDirGitignores (gitRules r.tree) date dirs r.tree)) date files _ hd hsane a2
+      exact gitIgnored_of_readsLikeMore _ _ b1 _ _ (hK12 hc)
+    | whitelist => exact absurd hc hK6a
+  have hT := (cmd_more (.track date dirs files) ⟨hd, hdn, hsane⟩ r.tree ht).2
+  obtain ⟨c1, _⟩ := cmd_more (.handler date [] carried) ⟨hd, by simp, hcn⟩ _ hT
+  exact gitIgnored_of_readsLikeMore _ _ c1 _ _ hmid
+
+/-- The `.gitignore` files after `xvc file track` do not depend on what the store held: the tail of
+    `cmd_track` takes all file targets, not only the paths that are new to the store.  (The tie
+    compares exactly this function with the binary on histories in which recorded paths lost their lines.) -/
+theorem C16_track_ignores_independent_of_store (rec1 rec2 : List Target) (t : Tree) (date : Str)
+    (dirs files carried : List Target) :
+    (trackCmd date dirs files carried ⟨rec1, t⟩).tree = (trackCmd date dirs files carried ⟨rec2, t⟩).tree := rfl
+
+/-- the same at the end of any history of user edits and commands: whatever the steps before did to the
+    store and to the `.gitignore` files, a track command on `files` makes every `x ∈ files` ignored (the
+    hypotheses speak about the state the history leads to) -/
+theorem C16_history_track_reestablishes_ignore (hist : List Step) (r0 : Repo) (date : Str)
+    (dirs files carried : List Target) (x : Target) (hx : x ∈ files)
+    (hdir : (contentAt x.dir (hist.foldl (fun r s => s.run r) r0).tree).isSome = true)
+    (hd : '\n' ∉ date) (hdn : ∀ y ∈ dirs, '\n' ∉ y.name) (hsane : ∀ y ∈ files, '\n' ∉ y.name)
+    (hcn : ∀ y ∈ carried, '\n' ∉ y.name) (ht : NoLoneCR (hist.foldl (fun r s => s.run r) r0).tree)
+    (hK6b : PlainName x.name)
+    (hK6a : check (gitRules (updateDirGitignores (gitRules (hist.foldl (fun r s => s.run r) r0).tree) date dirs
+      (hist.foldl (fun r s => s.run r) r0).tree)) x.pathStr ≠ .whitelist)
+    (hK12 : check (gitRules (updateDirGitignores (gitRules (hist.foldl (fun r s => s.run r) r0).tree) date dirs
+      (hist.foldl (fun r s => s.run r) r0).tree)) x.pathStr = .ignore →
+      gitIgnored (updateDirGitignores (gitRules (hist.foldl (fun r s => s.run r) r0).tree) date dirs
+        (hist.foldl (fun r s => s.run r) r0).tree) (x.dir ++ [x.name]) false = true) :
+    gitIgnored ((hist ++ [Step.track date dirs files carried]).foldl (fun r s => s.run r) r0).tree
+      (x.dir ++ [x.name]) false = true := by
+  rw [List.foldl_append]
+  exact C16_track_reestablishes_ignore _ date dirs files carried x hx hdir hd hdn hsane hcn ht hK6b hK6a hK12
+
+/-- non-vacuity, scenario 1 of the seeded defect C16-1: `out/model.bin` is recorded, `out/` was deleted
+    together with `out/.gitignore` and regenerated with identical content (nothing is carried); the
+    path is not ignored before and is ignored after the second `xvc file track out/model.bin`; the
+    store is unchanged -/
+example :
+    let x : Target := ⟨["out".toList], "model.bin".toList⟩
+    let r : Repo := ⟨[x], .node Gen.GITIGNORE_INITIAL_CONTENT.toList [] [("out".toList, .node [] [] [])]⟩
+    x ∈ r.recorded ∧ gitIgnored r.tree ["out".toList, "model.bin".toList] false = false ∧
+    PlainName x.name ∧ check (gitRules r.tree) x.pathStr = .noMatch ∧
+    (trackCmd "D".toList [] [x] [] r).recorded = [x] ∧
+    contentAt ["out".toList] (trackCmd "D".toList [] [x] [] r).tree =
+      some "### Following 1 lines are added by xvc on D\n/model.bin\n".toList ∧
+    gitIgnored (trackCmd "D".toList [] [x] [] r).tree ["out".toList, "model.bin".toList] false = true := by decide
+
+/-- non-vacuity, scenario 2: the first track happened while a user rule whitelisted the file (K6a: nothing
+    written, the path is recorded); the user removed the rule; the second track writes the line -/
+example :
+    let x : Target := ⟨[], "labels.csv".toList⟩
+    let r1 := trackCmd "D".toList [] [x] [x] ⟨[], .node "*.csv\n!labels.csv\n".toList [] []⟩
+    let r2 := (Step.user (fun _ => .node [] [] [])).run r1
+    r1.recorded = [x] ∧ gitIgnored r1.tree ["labels.csv".toList] false = false ∧
+    gitIgnored r2.tree ["labels.csv".toList] false = false ∧
+    gitIgnored (trackCmd "E".toList [] [x] [] r2).tree ["labels.csv".toList] false = true := by decide
+
+/-- what the theorem rules out — NOT the code: the variant of `cmd_track` that passes only the paths new
+    to the store to `update_file_gitignores` ("they were written when they were recorded") leaves the
+    regenerated, already recorded file un-ignored -/
+example :
+    let trackNewOnly (date : Str) (dirs files : List Target) (r : Repo) : Tree :=
+      trackUpdate date dirs (files.filter (· ∉ r.recorded)) r.tree
+    let x : Target := ⟨["out".toList], "model.bin".toList⟩
+    let r : Repo := ⟨[x], .node [] [] [("out".toList, .node [] [] [])]⟩
+    gitIgnored (trackNewOnly "D".toList [] [x] r) ["out".toList, "model.bin".toList] false = false ∧
+    gitIgnored (trackCmd "D".toList [] [x] [] r).tree ["out".toList, "model.bin".toList] false = true := by decide
+
 /-! ## the cache is never staged -/
 
 /-- the patterns `xvc init` writes, as git parses them — computed from the generated `GITIGNORE_INITIAL_CONTENT` -/
@@ -385,6 +484,12 @@ open Ign.Git in
 #print axioms C16_still_ignored
 open Ign.Git in
 #print axioms C16_tracked_stays_ignored
+open Ign.Git in
+#print axioms C16_track_reestablishes_ignore
+open Ign.Git in
+#print axioms C16_track_ignores_independent_of_store
+open Ign.Git in
+#print axioms C16_history_track_reestablishes_ignore
 open Ign.Git in
 #print axioms C16_whitelisted_counterexample
 open Ign.Git in
